@@ -423,15 +423,15 @@ def visit_time_ranges(vobject_item: vobject.base.Component, child_name: str,
                         return
                 elif completed is not None and created is not None:
                     # Line 5
-                    completed = reference_date + timedelta(
+                    completed = reference_date
+                    created = reference_date - timedelta(
                         seconds=original_duration)
-                    if (range_fn(reference_date - SECOND,
-                                 reference_date + SECOND,
+                    if (range_fn(created - SECOND, completed + SECOND,
                                  is_recurrence) or
-                            range_fn(completed - SECOND, completed + SECOND,
+                            range_fn(created - SECOND, created + SECOND,
                                      is_recurrence) or
-                            range_fn(reference_date - SECOND,
-                                     reference_date + SECOND, is_recurrence) or
+                            range_fn(completed - SECOND, created + SECOND,
+                                     is_recurrence) or
                             range_fn(completed - SECOND, completed + SECOND,
                                      is_recurrence)):
                         return
